@@ -38,8 +38,8 @@ CHECKS = {
               "keyvalue.FS over a plain map store, mount.FS (root + mount at a + nested mount at a/b), Sub(mem,a) and Sub(mount,a/b). After every step, successful or failed, on every "
               "constituent FS: root exists and is a directory; for every path of the depth-4 closure (121 paths) that Stat or Open accepts the parent is a directory that lists it; every "
               "listed entry can be Stat'ed and opened with agreeing kinds; no duplicates; every call returned within the watchdog; (plain store) every stored key is reachable by listings. "
-              "Handle steps (hopen/hwrite/htrunc/hchmod/hclose on 2 slots) keep handles open across later namespace operations, a third of the steps then aim at the open handle's path or its directory; the stale legs build histories around one handle that outlives its path. "
-              "non-trivial = history with a successful rename/remove of a directory or an operation whose path runs through a regular file; every stale case"),
+              "Handle steps (hopen/hwrite/htrunc/hchmod/hclose on 2 slots) keep handles open across later namespace operations, a third of the steps then aim at the open handle's path or its directory; the stale legs build histories around one handle that outlives its path. Directory handles are opened as well and read in pages (hreaddir, page sizes 1, 2, 3, all) while their children change; the dirpage legs script exactly that: populate a directory with 2..4 children, open it, interleave ReadDir(n) with removals, renames and additions of children. "
+              "non-trivial = history with a successful rename/remove of a directory or an operation whose path runs through a regular file; every stale / dirpage case"),
         assumptions=["names {a,b,c}, depth <= 4", "for Sub views removing/renaming the view's root is not generated (it legitimately removes the base directory of the parent)",
                      "termination observed as: returned within a 10 s watchdog, confirmed by re-running the history alone in a fresh process"],
         legs=[
